@@ -92,6 +92,34 @@ def rank_range(cn, args):
     raise Unknown('rank range step')
 
 
+def eval_bound(cn, t, R_, k_):
+    if is_num(t):
+        return t[1]
+    if t[0] == 'call' and t[1] in (S('max'), S('min')) and len(t[2]) >= 2 and not (len(t) > 3 and t[3]):
+        return (max if t[1][1] == 'max' else min)(eval_bound(cn, x, R_, k_) for x in t[2])
+    if t[0] == 'bin' and t[1] in ('Add', 'Sub'):
+        a, b = eval_bound(cn, t[2], R_, k_), eval_bound(cn, t[3], R_, k_)
+        return a + b if t[1] == 'Add' else a - b
+    txt = cn.pstr(t)
+    if txt == 'R':
+        return R_
+    if txt == 'arg0':
+        return k_
+    raise Unknown('bound atom ' + txt)
+
+
+def range_elems(cn, args, flip, R_, k_):
+    vals = [eval_bound(cn, a, R_, k_) for a in args]
+    out = list(range(*vals))
+    return out[::-1] if flip else out
+
+
+def want_elems(name, arity, R_, k_):
+    if name == 'GENEROUS':
+        return list(range(R_, (max(1, k_) if arity >= 1 else 1) - 1, -1))
+    return list(range(1, (min(R_, k_) if arity >= 1 else R_) + 1))
+
+
 def want_range(name, arity):
     if name == 'GENEROUS':
         last = 'max(1, arg0)' if arity >= 1 else '1'
@@ -215,6 +243,16 @@ def check_rank_loop(rep, r, e, name, arity, rule, cfg):
         rep.inconclusive(rule, e.where, 'rank range of %s is in closed form' % cfg, got=str(u), loc=e.loc)
         return
     w = want_range(name, arity)
+    if (first, last, order) != w and order == w[2]:
+        # nested max / min that the textual normal form does not flatten (min(R, max(0, min(R, k)))): the bounds are lattice
+        # terms over {R, k, small constants}; two such terms are equal iff they agree on every order type of their atoms,
+        # and every order type occurs on the grid below (R >= 0 ranks, admissible cut-off k >= 1)
+        try:
+            same = all(range_elems(r.canon, dom[2], flip, R_, k_) == want_elems(name, arity, R_, k_) for R_ in range(0, 9) for k_ in range(1, 10))
+        except Unknown:
+            same = False
+        if same:
+            first, last, order = w
     rep.check((first, last, order) == w, rule, e.where, 'rank range and order of %s (non-empty for every admissible cut-off)' % cfg, got='%s .. %s %s' % (first, last, order),
               want='%s .. %s %s' % w, construct='%s ranks %s..%s %s' % (name, first, last, order), loc=e.loc)
 
